@@ -549,6 +549,6 @@ func classifyBlHist(c BlHistCase) (bool, []string) {
 func TestIpBlacklistHistory(t *testing.T) {
 	pbt.Run(t, pbt.Spec[BlHistCase]{
 		ID: "C14", Name: "ip-blacklist-history", Gen: genBlHist, Run: runBlHist, Classify: classifyBlHist,
-		Quick: 6, Thorough: 30,
+		Quick: 4, Thorough: 30,
 	})
 }
